@@ -81,6 +81,24 @@ CLAIMS = {
               "classification of handlers is a hand-written oracle by handler name (DESIGN.md App. C); sessions are "
               "injected into the cache actor, the login flow is not exercised"),
         technique="Lean 4 theorem (decide +kernel over generated tables) + exhaustive differential correspondence"),
+    "C05": dict(
+        category="proof",
+        text=("Theorems (lean/RNacos/Props/C05.lean) over the index file byte by byte: reopening after write_index returns "
+              "exactly the record written whatever was in the file before - shorter, equal or longer record, stale tail "
+              "bytes (reopen_after_writeIndex, parse_frame); write_last_applied_log leaves the record untouched and is read "
+              "back for every u64 (reopen_after_writeApplied); each mutator replaces only its own fields "
+              "(catalogue_updates_keep_vote, hardState_keeps_rest, member_updates_keep_logs, logs_update_keeps_members, "
+              "addAddr_lookup, addAddr_keeps_others); for EVERY history of hard-state / membership / address / log- and "
+              "snapshot-catalogue / last-applied saves the file decodes to the state in memory, so any number of restarts "
+              "read the last saved term+vote and membership (history_consistent, restart_reads_last_hard_state, "
+              "restart_reads_last_membership); the pre-fix new-file threshold is refuted by evaluation "
+              "(old_threshold_forgets_vote). Tie: differential correspondence against the real RaftIndexManager actor on "
+              "real files incl. file sizes; oracle = last saved value per field after every reopen."),
+        note=("trusted: Lean kernel; hand model RNacos/Model/IndexFile.lean incl. quick-protobuf's encoding of RaftIndex, "
+              "whose round trip is a hypothesis of the theorems (RoundTrips r, evaluated on examples, exercised by the "
+              "correspondence); crash inside one write is C04's subject; ack-before-write window of the actor noted in "
+              "DESIGN.md"),
+        technique="Lean 4 theorem (byte-level file model, induction over histories) + differential correspondence"),
     "C09": dict(
         category="proof",
         text=("Theorems (lean/RNacos/Props/C09.lean) by an invariant preserved by every operation (publish, remove, "
